@@ -130,6 +130,44 @@ def run_construct(w, sym, code, st=None):
     return out
 
 
+TINY_TEXT = ['1e-65536', '-25E-65540', '0.5e-70000']
+TINY_UNITS = ['m', 'km', 'kg', 'K']        # (types without quantum)
+
+
+@guarded('C18')
+def run_tiny_text(w, sym, text, st=None):
+    """numeric strings with more fractional digits than a decimalfp Decimal
+    can hold (65535): still "exactly that number's rational value".  No
+    text round trip here: CPython refuses to print ints of that size."""
+    Q = w.q
+    u = w.units[sym]
+    cls = u.qty_cls
+    x = F(stddec.Decimal(text))
+    g = grid(w, sym)
+    want = x if g is None else O.round_to(x, g, 'ROUND_HALF_EVEN')
+    out = []
+    for fname, f in (('own-with-unit', lambda: cls(text, u)),
+                     ('generic', lambda: Q.Quantity(f"{text} {sym}")),
+                     ('own', lambda: cls(f"{text} {sym}"))):
+        try:
+            q = f()
+        except Exception as exc:
+            out.append(('C18:construct:raises:tiny-text',
+                        f"{fname} factory with {text!r} and {sym}: "
+                        f"{type(exc).__name__}: {str(exc)[:80]}"))
+            continue
+        if st is not None:
+            st.transitions += 1
+            st.evaluations += 1
+        a = q.amount
+        if type(q) is not cls or q.unit is not u or isinstance(a, float) \
+                or O.fr(a) != want:
+            out.append(('C18:construct:value:tiny-text',
+                        f"{fname} factory with {text!r} and {sym} does not "
+                        "hold exactly that value"))
+    return out
+
+
 def text_round_trip(w, q, st=None):
     Q = w.q
     out = []
@@ -273,6 +311,11 @@ def part_units(syms, nums):
             st.state((sym, code), nontrivial=code not in ('i:0',))
             for sig, msg in run_construct(w, sym, code, st):
                 st.violation(sig, msg, {'construct': [sym, code]})
+        for text in TINY_TEXT if sym in TINY_UNITS else ():
+            st.paths += 1
+            st.state((sym, 'tiny', text), nontrivial=True)
+            for sig, msg in run_tiny_text(w, sym, text, st):
+                st.violation(sig, msg, {'tiny_text': [sym, text]})
         tm = w.tm[w.um[sym].tname]
         if w.um[sym].scale is not None:
             for sym2 in tm.units:
@@ -317,6 +360,8 @@ def replay(case):
     w = make_world()
     if 'construct' in case:
         return run_construct(w, *case['construct'])
+    if 'tiny_text' in case:
+        return run_tiny_text(w, *case['tiny_text'])
     if 'parse_convert' in case:
         return run_parse_convert(w, *case['parse_convert'])
     if 'parse_unconvertible' in case:
